@@ -10,7 +10,8 @@ CHECKS = {
                 'several action exit codes/outputs; the observed (identifier, exit code, stream) triple is compared with the '
                 'documented table hard-coded in the harness. Held = on every executed cell; nothing is claimed for scenarios '
                 'outside the 21 endings.'
-                ' Added: a failing assertion followed by an error in [cleanup] (documented: an error, not a failed test).',
+                ' Added: a failing assertion followed by an error in [cleanup] (documented: an error, not a failed test).'
+                ' Every third case is started from a directory that is not an ancestor of the case file; case file names that cannot be read (symbolic link loop, below a regular file).',
         'note': _TB,
     },
     'C01': {
@@ -31,7 +32,8 @@ CHECKS = {
                 'every step; after return sandbox removal / retention, cwd, os.environ and putenv audit events are checked. '
                 'Real CLI runs of generated cases with cd/env/chmod/tree disturbances x 10 endings x --keep repeat the '
                 'after-return and result/-contents checks on real instructions.'
-                ' Also: the directory Exactly was started in removed during the run.',
+                ' Also: the directory Exactly was started in removed during the run.'
+                ' Part `minimal`: minimal cases x --keep x --preprocessor x start directory elsewhere.',
         'note': _TB + '; root user: read-only directories cannot obstruct removal here',
     },
     'C13': {
@@ -49,7 +51,8 @@ CHECKS = {
         'text': 'Generated suite hierarchies (all 11 verdict classes at 5 positions, 82 invalid-suite trees, ordering trees, seeded random trees) '
                 'are run through the real CLI with both reporters; the log of executed cases, exit code, progress events and JUnit XML are '
                 'compared with a reference model of enumeration order, validity and success classification.'
-                ' Quoted entries holding pattern characters or spaces are plain file names.',
+                ' Quoted entries holding pattern characters or spaces are plain file names.'
+                ' Also: links beside their target, one glob matching a directory and its default suite file, cases outside the tree of the root suite, listed names that cannot exist.',
         'note': _TB + '; bracket globs, dot-files, symlinked suites used validly and absolute entries are left out (see evidence assumptions)',
     },
     'C20': {
@@ -58,7 +61,8 @@ CHECKS = {
         'text': 'Complete enumeration (419 cases, exhaustive, seed independent): every (phase, instruction), suite (section, instruction), '
                 'entity of every entity type, builtin symbol and every internal href of the HTML manual. Three independently observed '
                 'sets (names the parser accepts, names the listings print, names whose page renders) must be equal; every href must hit '
-                'exactly one id.',
+                'exactly one id.'
+                ' Kind `width`: help pages under every state of COLUMNS / LINES.',
         'note': _TB + '; for instructions a suite section takes over from a phase, the phase page counts as the help entry',
     },
     'C07': {
@@ -70,7 +74,8 @@ CHECKS = {
                 'permutation of their phase blocks and the execution log compared with the reference order; planted defects must be '
                 'reported with file, line, text and chain; cycles/unknown phases must be errors. ParseSource invariant checked after '
                 'every mutation of every ParseSource object.'
-                ' [act] declared several times is also EXECUTED (source actor); inclusion cycles back to the root file are checked with the located chain.',
+                ' [act] declared several times is also EXECUTED (source actor); inclusion cycles back to the root file are checked with the located chain.'
+                ' Includes of symbolic-link loops and dangling links.',
         'note': _TB + '; only complete instructions are generated (an incomplete one may absorb following lines: outside the quantifier)',
     },
     'C12': {
@@ -80,7 +85,8 @@ CHECKS = {
                 'use points separated by cd instructions and compared with root+suffix (cd at time of use); every creating instruction form x '
                 'relativity/symbol chain is run and must be rejected/accepted as documented while snapshots and audit events show the home '
                 'directories untouched.'
-                ' Also: path symbols reaching a suffix through 1-4 string definitions; a leading path-symbol reference followed by a suffix with an absolute part.',
+                ' Also: path symbols reaching a suffix through 1-4 string definitions; a leading path-symbol reference followed by a suffix with an absolute part.'
+                ' Kind H: -rel-here under nested inclusion and relative suite / case paths.',
         'note': _TB + '; `..`/symlinks not generated; three open known findings about absolute path parts (doc/BUGS.rst)',
     },
     'C17': {
@@ -90,7 +96,8 @@ CHECKS = {
                 'defaults and the same records in every order; each case is run inside the suite, with --suite and beside exactly.suite and '
                 'must produce the same identifier and probe sequence, which must also equal the model of suite contents (suite first, '
                 'cleanup last, direct cases only) for all 128 subsets of suite contents.'
-                ' Also: case files that are symbolic links into another directory; shared suite contents with compositions (|, &&, ||, !) and with symbol values that are ill-formed in one case / in all cases.',
+                ' Also: case files that are symbolic links into another directory; shared suite contents with compositions (|, &&, ||, !) and with symbol values that are ill-formed in one case / in all cases.'
+                ' Every seventh tree gives the actor on the command line of every way of running.',
         'note': _TB,
     },
     'C19': {
@@ -100,7 +107,8 @@ CHECKS = {
                 'the timeout in force at that instruction (no waiting, exhaustive). Real kills: timeout=1 with a child that would sleep '
                 '30 s must give HARD_ERROR in the phase of use, cleanup marker present, sandbox removed, child pid dead and its finished '
                 'marker absent; early-exiting children must not be reported; decided on logical facts, never on wall-clock.'
-                ' Part F: timeout histories around a failing step ([cleanup] runs under the timeout in force at the failure).',
+                ' Part F: timeout histories around a failing step ([cleanup] runs under the timeout in force at the failure).'
+                ' Negated matcher places.',
         'note': _TB + '; only the process Exactly itself starts; the preprocessor (no timeout) is outside the quantifier',
     },
     'C03': {
@@ -110,7 +118,8 @@ CHECKS = {
                 'at every phase and position (k<=2 exhaustively); the run must end 65 with the documented identifier and produce no effect '
                 'event at all; `exactly symbol FILE` on the same file must execute nothing; the same case without the defect (control) '
                 'must produce every marker, a Popen event and a sandbox, otherwise the case is inconclusive.'
-                ' Defect spellings include definitions that refer to the symbol they define.',
+                ' Defect spellings include definitions that refer to the symbol they define.'
+                ' Also names that exist only as dangling symbolic links.',
         'note': _TB + '; instructions lacking their mandatory last argument (which absorb the next line) are outside the quantifier',
     },
     'C06': {
@@ -131,7 +140,8 @@ CHECKS = {
                 'argument vocabulary, executable forms x phases (1997 core cases) plus seeded compositions: every started process must '
                 'receive the argv, stdin bytes and cwd the reference denotation gives, shell commands as one verbatim string, outcome '
                 'files/assertions must reflect what the probe emitted, non-zero exit = FAIL in [assert] / HARD_ERROR elsewhere.'
-                ' Also: stderr texts (incl. bytes that are not UTF-8) of programs run as instructions; programs terminated by a signal.',
+                ' Also: stderr texts (incl. bytes that are not UTF-8) of programs run as instructions; programs terminated by a signal.'
+                ' Here-documents in [act]; shell lines ending in escaped white space; odd stderr of the action with a failing exit-code assertion.',
         'note': _TB + '; constructs whose meaning the manual leaves open are not generated (see evidence assumptions)',
     },
     'C15': {
@@ -140,7 +150,8 @@ CHECKS = {
         'text': 'All ordered pairs of 16 FILE-SPEC forms (and triples of 6), pairs of dir instruction forms, every (min,max) depth on every '
                 'directory of fixed trees with symlinks, matcher pools x selection/prune/quantifiers, plus seeded trees/lists/matchers: the '
                 'tree on disk must equal the denoted tree or HARD_ERROR as the model says, nothing may be created outside the populated '
-                'directory, absolute and `..` names must be rejected, and every dir-contents / exists verdict must equal the reference.',
+                'directory, absolute and `..` names must be rejected, and every dir-contents / exists verdict must equal the reference.'
+                ' Literal cases: failing populations in every phase, names the file system refuses, -with-pruned followed by an operator.',
         'note': _TB + '; symlink loops, `.`/empty name components and unanchored name regexes are not generated',
     },
     'C14': {
@@ -152,7 +163,8 @@ CHECKS = {
                 '(M, identity-wrapped M, ( M && M ), conjunct permutations reading through as_str/as_lines/as_file/external program, every '
                 'kind of expected-text source for equals). Inside every run M4 compares each observation of each text source with the '
                 'first one (value, and division into lines at \\n only).'
-                ' Families added: identity inside chains around a text-changing transformer; stderr of programs as expected operand.',
+                ' Families added: identity inside chains around a text-changing transformer; stderr of programs as expected operand.'
+                ' Kind `special-file`: procfs files whose size is reported as 0.',
         'note': _TB + '; one open known finding (CR LF files: universal-newline reading vs raw bytes)',
     },
     'C05': {
@@ -180,7 +192,8 @@ CHECKS = {
         'text': 'Every history of <=2 setting instructions over a 16-letter alphabet and of 3 over a 5-letter alphabet, in every '
                 'order-preserving distribution over setup/before-assert/assert/cleanup, with a probe after every instruction and as the '
                 'action (4867 histories), plus seeded histories of 4..10 settings: each probe must see the environment set (act / non-act), '
-                'current directory, timeout and symbol values that the reference state gives after the preceding instructions.',
+                'current directory, timeout and symbol values that the reference state gives after the preceding instructions.'
+                ' Every third case gives the action a transformation of its output; environment sets that have become empty (Exactly started with a minimal environment).',
         'note': _TB + '; real timeouts/kills belong to C19; values never contain braces',
     },
     'C08': {
